@@ -217,27 +217,34 @@ def decide(c, eqs, tag):
         if g != w:
             return [(f'{tag}:{l}', 'exc', f'{g!r} instead of {w!r}', None)]
     terms = []
+    hard = []
     for l, g, w in eqs:
         if isinstance(g, (bool, list)) or isinstance(w, (bool, list)):
             continue
         try:
-            terms.append((l, equality_claim(lift(g), lift(w))))
+            gt, wt = lift(g), lift(w)
         except TypeError:
             return [(f'{tag}:{l}', 'exc', f'value of type {type(g).__name__}: {g!r}', None)]
+        cl = equality_claim(gt, wt)
+        terms.append((l, cl))
+        if not z3.is_true(z3.simplify(cl)):
+            hard.append((l, gt, wt, cl))
     if not terms:
         return [(f'{tag}', 'proved', None, None)]
-    v = symx.prove(c, z3.And([t for _, t in terms]), tag)
+    if hard:
+        # candidate counterexamples by numeric evaluation of the two sides (confirmed by replay only)
+        consts = dict(symengine.NUM_CONSTANTS)
+        pts = symx.sample_points(c, [h[1] for h in hard[:3]] + [h[2] for h in hard[:3]], k=3, extra=consts)
+        for l, gt, wt, cl in hard[:6]:
+            hit = symx.falsify(c, gt, wt, pts)
+            if hit is not None:
+                asg, a, b = hit
+                return [(f'{tag}:{l}', 'cex', f'numeric candidate: returned {a}, reference {b}', FakeModel(asg))]
+    v = symx.prove(c, z3.And([t for _, t in terms]), tag, timeout_ms=8000)
     if v.status == 'proved':
         return [(f'{tag} ({len(terms)} entries)', 'proved', None, None)]
     if v.status == 'unknown':
-        # fall back to entry-wise queries
-        res = []
-        for l, t in terms:
-            vv = symx.prove(c, t, f'{tag}:{l}')
-            if vv.status != 'proved':
-                res.append((vv.label, vv.status, None, vv.model))
-                break
-        return res or [(f'{tag} ({len(terms)} entries, entry-wise)', 'proved', None, None)]
+        return [(f'{tag}:{hard[0][0] if hard else ""}', 'unknown', None, None)]
     for l, t in terms:
         try:
             ok = z3.is_true(v.model.eval(t, model_completion=True))
@@ -246,6 +253,13 @@ def decide(c, eqs, tag):
         if not ok:
             return [(f'{tag}:{l}', 'cex', None, v.model)]
     return [(f'{tag}', 'cex', None, v.model)]
+
+
+class FakeModel:
+    """assignment found by numeric falsification, presented like a z3 model to model_to_assignment"""
+
+    def __init__(self, asg):
+        self.asg = asg
 
 
 # --------------------------------------------------------------------------
@@ -450,8 +464,12 @@ def worker(item):
             elif status == 'unknown':
                 res.add(label, 'unknown', detail='solver unknown')
             else:
-                vals = c01.model_values(model, [spec], NROWS) if model is not None else \
-                    {n: 1.0 for n in c01.model_values_names([spec], NROWS)}
+                if isinstance(model, FakeModel):
+                    vals = {n: model.asg.get(n, 1.0) for n in c01.model_values_names([spec], NROWS)}
+                elif model is not None:
+                    vals = c01.model_values(model, [spec], NROWS)
+                else:
+                    vals = {n: 1.0 for n in c01.model_values_names([spec], NROWS)}
                 for r in range(NROWS):
                     vals.setdefault(f'd_{r}_W', 1.0 + 0.5 * r)
                 case = dict(spec=spec, values=vals, mode=mode, label=label)
